@@ -411,27 +411,33 @@ def rules_selection(run):
             examined = tl.target.id
         run.check(isinstance(a0, ast.Name) and examined is not None and a0.id == examined, r, fi.short,
                   'guard evaluated on the examined transition', 'evaluate_guard must receive the transition being examined', g)
-        exprs = [a1]
+        # case split of the exposed event: the pending event for the event class, None for the eventless class (conditional expression,
+        # if / else assignments or default-then-override alike)
+        cs = q.cases(F, a1) if a1 is not None else []
+        good = len(cs) == 2
+        for v, at in cs:
+            v = strip_cast(v)
+            evented = None
+            for a in at:
+                if a[1] == label and a[0] in ('truthy', 'falsy'):
+                    evented = (a[0] == 'truthy') == key_true_evented
+                elif a[0] in ('is', 'is not') and a[1].endswith('.event') and a[2] == 'None':
+                    evented = a[0] == 'is not'
+            if evented is True:
+                good = good and isinstance(v, ast.Name) and v.id == evp
+            elif evented is False:
+                good = good and isinstance(v, ast.Constant) and v.value is None
+            else:
+                good = False
         if isinstance(a1, ast.Name):
-            exprs = [v for st, v in q.assigned_value(F, a1.id)]
-        good = bool(exprs)
-        for e in exprs:
-            e = strip_cast(e)
-            okk = False
-            if isinstance(e, ast.IfExp):
-                c = q.canon_atom(e.test)
-                evented_when_true = None
-                if c and c[0] == 'truthy' and c[1] == label:
-                    evented_when_true = (c[3] == key_true_evented)
-                elif c and c[0] == 'is' and c[1].endswith('.event') and c[2] == 'None':
-                    evented_when_true = not c[3]
-                if evented_when_true is not None:
-                    eb, nb = (e.body, e.orelse) if evented_when_true else (e.orelse, e.body)
-                    okk = isinstance(eb, ast.Name) and eb.id == evp and isinstance(nb, ast.Constant) and nb.value is None
-            good = good and okk
-            if isinstance(a1, ast.Name):
-                st = [s for s, v in q.assigned_value(F, a1.id) if strip_cast(v) is e][0]
-                good = good and q.in_block(st, L_ev.body) and q.dominates(F, st, g)
+            def top_index(n_):
+                for i_, s_ in enumerate(L_ev.body):
+                    if q.in_node(n_, s_):
+                        return i_
+                return None
+            for st, v in q.assigned_value(F, a1.id):
+                # defined afresh for every event class, before the guards of that class are evaluated
+                good = good and top_index(st) is not None and top_index(g) is not None and top_index(st) < top_index(g)
         run.check(good, r, fi.short, 'event exposed to guards is None for the eventless class',
                   'the event argument of evaluate_guard must be `event if <event class> else None`, defined per event class', g)
     impls = run.prog.impls('Evaluator', 'evaluate_guard')
@@ -464,9 +470,32 @@ def rules_selection(run):
             at = [a for a in guard_atoms(c)]
             okg = all(a in (('truthy', ps[1] + '.guard', ''), ('is not', ps[1] + '.guard', 'None')) for a in at)
             st_ = q.enclosing_stmt(c)
-            returned = isinstance(st_, ast.Return) and any(strip_cast(v_) is c for v_, at_ in q.cases(M, st_.value))
+            returned = any(isinstance(x_, ast.Return) and x_.value is not None and any(strip_cast(v_) is c for v_, at_ in q.cases(M, x_.value)) for x_ in q.walk(M, False))
             run.check(okg and returned, r, m.short, 'the value of the guard is the verdict',
                       'the guard is evaluated under %s / its value is not returned as it is' % at, c)
+
+
+def rules_guard_compilation(run):
+    r = run.rule('C01.10', 'a guard is compiled as an expression: every entry of the cache _evaluate_code reads from was compiled in eval mode '
+                           '(a cache shared with statements would hand back a code object whose evaluation yields None: the guard never holds)')
+    prog = run.prog
+    ev = run.fn('PythonEvaluator._evaluate_code')
+    E = ev.node
+    comps = [c for c in q.calls(E) if isinstance(c.func, ast.Name) and c.func.id == 'compile']
+    run.check(len(comps) == 1 and q.const_str(q.arg(comps[0], 2, 'mode')) == 'eval', r, ev.short, "compile(code, .., 'eval')", 'guards are not compiled in eval mode', E)
+    evals = [c for c in q.calls(E) if isinstance(c.func, ast.Name) and c.func.id == 'eval']
+    run.check(len(evals) == 1, r, ev.short, 'one eval site', 'found %d' % len(evals), E)
+    caches = {f for c, f, k, n in prog.direct_writes(ev) if c == 'PythonEvaluator' and k.startswith('mut:setdefault')} | \
+        {f for c, f, k, n in prog.direct_writes(ev) if c == 'PythonEvaluator' and k == 'item-assign'}
+    for fld in sorted(caches):
+        for m in prog.cls('PythonEvaluator').methods.values():
+            for c, f, k, n in prog.direct_writes(m):
+                if c == 'PythonEvaluator' and f == fld and (k.startswith('mut:setdefault') or k == 'item-assign'):
+                    cc = [x for x in ast.walk(n) if isinstance(x, ast.Call) and isinstance(x.func, ast.Name) and x.func.id == 'compile']
+                    cc = cc or [x for st, v in q.assigned_value(m.node, '?') for x in []]
+                    modes = {q.const_str(q.arg(x, 2, 'mode')) for x in cc}
+                    run.check(modes == {'eval'}, r, m.short, 'entries of %s are compiled in eval mode' % fld,
+                              'the cache guards are evaluated from also receives code compiled in mode %s' % sorted(str(x) for x in modes), n)
 
 
 def rules_priority_values(run):
@@ -512,8 +541,8 @@ def rules_priority_values(run):
     run.ok(r, fi.short, '%d condition leaves examined, %d local(s) holding a priority: %s' % (n_ok, len(holders), sorted(holders)), F)
 
 
-def rules_groupby(run):
-    r = run.rule('C01.6', 'sorted_groupby puts every item in exactly one group (unconditionally), sorts groups by label and honours '
+def rules_groupby(run, rid='C01.6'):
+    r = run.rule(rid, 'sorted_groupby puts every item in exactly one group (unconditionally), sorts groups by label and honours '
                           'the caller\'s reverse')
     fi = run.fn('sorted_groupby')
     F = fi.node
@@ -557,6 +586,7 @@ def rules_groupby(run):
 
 def check(run):
     run.guard(rules_priority_values, run)
+    run.guard(rules_guard_compilation, run)
     run.guard(rules_selection, run)
     run.guard(c05.rules_consumption, run, 'C01', '.5')
     run.guard(rules_groupby, run)
